@@ -194,14 +194,25 @@ macro_rules! req_get {
         match $req {
             Req::Values(vals) => {
                 let vs: Vec<&str> = vals.iter().map(|s| s.as_str()).collect();
-                $v.get_metric_with_label_values(&vs).map($wrap).map_err(|e| e.to_string())
+                let r = $v.get_metric_with_label_values(&vs).map($wrap).map_err(|e| e.to_string());
+                if r.is_ok() && vals.len() % 2 == 0 {
+                    Ok($wrap($v.with_label_values(&vs)))
+                } else {
+                    r
+                }
             }
             Req::Map(pairs) => {
                 let mut m: HashMap<&str, &str> = HashMap::new();
                 for (k, v) in pairs {
                     m.insert(k.as_str(), v.as_str());
                 }
-                $v.get_metric_with(&m).map($wrap).map_err(|e| e.to_string())
+                let r = $v.get_metric_with(&m).map($wrap).map_err(|e| e.to_string());
+                if r.is_ok() && pairs.len() % 2 == 1 {
+                    // the panicking accessor must hand out the same child
+                    Ok($wrap($v.with(&m)))
+                } else {
+                    r
+                }
             }
         }
     };
